@@ -241,6 +241,9 @@ class Interp:
                 return self.project(v[1], rest[2:], ty)
             if v[0] == "checked" and rest[:2] == ("as:Some", "0") and len(rest) == 2:
                 return self.arith(v[1], v[2], v[3])
+            if v[0] == "bcloned" and rest and isinstance(rest[0], str) and rest[0].startswith("as:"):
+                inner = self.project(v[1], rest, None)
+                return Poly.atom(("init", (("D", inner), ()), 0))
             if v[0] == "optj" and rest[:2] == ("as:Some", "0"):
                 if len(rest) == 2:
                     return v[3]
@@ -575,6 +578,8 @@ class Interp:
                     return Poly.const(1)
                 if v[0] == "none":
                     return Poly.const(0)
+                if v[0] == "bcloned":
+                    return Poly.atom(("discr", v[1]))
             return Poly.atom(("discr", v if not isinstance(v, Poly) else ("poly", v)))
         if k == "agg":
             return ("AGG", rv, [self.eval_operand(st, inst, a) for a in rv["args"]])
@@ -1120,7 +1125,7 @@ class Interp:
                 if cnode.closure_call:
                     outs = self.closure_return(st, inst, cnode, rpath, rty, dpath)
                     self.eff(node, nidx, "LEAVE", callee=inst.path(), call_gid=inst.call_gid, line=line)
-                    return [(s, o) for o in outs for s in normal_succs()]
+                    return [(s, o) for o in outs for s in normal_succs()]      # (for_each: the successor is the call node - next iteration)
                 elif is_scalar_ty(rty):
                     self.store(st, dpath, self.load(st, rpath, rty))
                 else:
@@ -1237,6 +1242,16 @@ class Interp:
             yes_f, no_f = bool_facts(args[0], True), bool_facts(args[0], False)
         elif kind == "call":
             yes_f, no_f = [], [("false",)]
+        elif kind == "for_each":
+            # one more iteration, or the range is exhausted
+            yes_f, no_f = [], []
+            rng = args[0]
+            direction = "asc"
+            if isinstance(rng, tuple) and rng[:2] == ("iteradapt", "rev") and rng[2]:
+                rng, direction = rng[2][0], "desc"
+            site = ("s", gid)
+            self.eff(node, nidx, "RANGE_NEXT", direction=direction, range=rng if not isinstance(rng, Tree) else ("tree", rng.path), path=None, line=line)
+            payload = Poly.atom(("rangenext", site, direction, rng if not isinstance(rng, Tree) else ("tree", rng.path)))
         else:
             d, payload = self._opt_parts(st, args[0])
             yes_f = self.switch_facts(d, 1, True) + self.optj_facts(d, 1, True)
@@ -1249,6 +1264,10 @@ class Interp:
             s0.facts = s0.facts | frozenset(no_f)
             if kind == "map_or":
                 self.assign(s0, dpath, dty, args[1])
+            elif kind == "is_some_and":
+                self.store(s0, dpath, ("bconst", 0))
+            elif kind == "for_each":
+                self.store(s0, dpath, ("unit", "()"))
             else:
                 self.store(s0, dpath, ("none",))
             res += [(s, s0) for s in targets]
@@ -1284,7 +1303,7 @@ class Interp:
                         self.store(s1, pc, tup[1 + i])
                     elif tup is not None and n_par == 1 and not (isinstance(tup, tuple) and tup and tup[0] == "unit"):
                         self.store(s1, pc, self.project(tup, ("0",), None))
-            elif kind in ("map", "and_then", "map_or", "filter"):
+            elif kind in ("map", "and_then", "map_or", "filter", "is_some_and", "for_each"):
                 pc = (("L", ci.loff + 2), ())
                 if kind == "filter":
                     # the predicate takes a reference to the payload: give the payload a cell of its own
@@ -1305,7 +1324,9 @@ class Interp:
         """-> list of states leaving the closure towards the combinator's continuation"""
         kind = cnode.closure_call
         leaf = self.load(st, rpath, rty) if is_scalar_ty(rty) else st.env.get(rpath)
-        if kind in ("and_then", "map_or", "call"):
+        if kind == "for_each":
+            return [st]
+        if kind in ("and_then", "map_or", "call", "is_some_and"):
             if leaf is not None:
                 self.assign(st, dpath, None, leaf)
             else:
